@@ -112,6 +112,35 @@ func runC07(c *Ctx) {
 		}
 	}
 
+	if nl := c.fn(relTransport, "", "newLazyDnsConn"); nl != nil {
+		good := false
+		for _, a := range nl.AnonFuncs {
+			eachInstr(a, func(in ssa.Instruction) {
+				ci, ok := isCall(in, "builtin:close")
+				if !ok {
+					return
+				}
+				if k, _ := loadedField(ci.Common().Args[0]); k != T+"lazyDnsConn.dialFinished" {
+					return
+				}
+				cSet, eSet := false, false
+				eachInstr(a, func(x ssa.Instruction) {
+					if st, ok := x.(*ssa.Store); ok && instrDominates(x, in) {
+						switch k, _ := fieldKey(st.Addr); k {
+						case T + "lazyDnsConn.c":
+							cSet = true
+						case T + "lazyDnsConn.dialErr":
+							eSet = true
+						}
+					}
+				})
+				good = cSet && eSet
+			})
+		}
+		c.check(good, "dial-result-published-before-signal", nl.Pos(), "the dialled connection and the dial error are stored before dialFinished is closed",
+			"dialFinished is closed before the dial result is stored: queued calls woken by it read a nil connection / nil error")
+	}
+
 	// ---------------------------------------------------------------- R3
 	c.rule("R3", "every connection read/write error leads to close-with-error on that path", 5)
 	closers := map[string]bool{"(*" + T + "TraditionalDnsConn).CloseWithErr": true, "(*" + T + "reusableConn).closeWithErr": true}
@@ -767,6 +796,7 @@ func runC07(c *Ctx) {
 	// ---------------------------------------------------------------- R9
 	c.rule("R9", "early-reservation wait-group accounting (a missing Done blocks every later call and Close forever)", 2)
 	checkEarlyWgAccounting(c)
+	checkEarlyWgOrdering(c)
 }
 
 type flagState struct{ done bool }
